@@ -14,9 +14,12 @@ import (
 	"sort"
 	"strconv"
 	"strings"
+	"sync"
+	"sync/atomic"
 	"time"
 
 	"github.com/lindb/lindb/pkg/queue"
+	"github.com/lindb/lindb/verif/internal/seam"
 )
 
 // ---------------------------------------------------------------------------------------------------------
@@ -32,6 +35,9 @@ func runCase() {
 	debug.SetPanicOnFault(true)
 	seed, _ := strconv.ParseInt(os.Getenv("VERIF_SEED"), 10, 64)
 	res := &caseResult{Kind: kind, Index: start, Counters: map[string]int{}}
+	if kind == "seq" || kind == "directed" {
+		installPageWriteHook()
+	}
 	for idx := start; idx < start+count; idx++ {
 		fmt.Printf("case %s %d\n", kind, idx) // logged before it runs
 		cdir := filepath.Join(dir, fmt.Sprintf("q%d", idx))
@@ -83,6 +89,7 @@ type mGroup struct {
 	overtaken         bool
 	resetWhileStopped bool
 	stopped           bool // currently stopped (not in the map) but known
+	aboveReported     bool // "queue ack above this group's ack" was reported for the current episode
 }
 
 type hist struct {
@@ -250,7 +257,11 @@ func (h *hist) after(full bool) {
 			g.below = false
 			h.res.count("late_group_caught_up_with_queue_ack", 1)
 		}
-		if !g.below && qa > a {
+		if qa <= a {
+			g.aboveReported = false
+		}
+		if !g.below && qa > a && !g.aboveReported {
+			g.aboveReported = true // reported once per episode, not after every following operation
 			h.violate("C06/queue-ack/above-existing-group-ack/"+kind, "queue ack %d > ack %d of existing group %s", qa, a, g.name)
 		}
 		ok := a <= c && c <= app
@@ -554,20 +565,8 @@ func (h *hist) opConsumeWait(g *mGroup, how string) {
 // waitParkedInNotEmpty waits until n goroutines are parked in sync.Cond.Wait below queue.NotEmpty.
 func waitParkedInNotEmpty(n int, limit time.Duration) bool {
 	deadline := time.Now().Add(limit)
-	buf := make([]byte, 1<<20)
 	for {
-		k := runtime.Stack(buf, true)
-		cnt := 0
-		for _, g := range strings.Split(string(buf[:k]), "\n\n") {
-			nl := strings.IndexByte(g, '\n')
-			if nl < 0 {
-				continue
-			}
-			if strings.Contains(g[:nl], "sync.Cond.Wait") && strings.Contains(g, "pkg/queue.(*queue).NotEmpty") {
-				cnt++
-			}
-		}
-		if cnt >= n {
+		if countParked("sync.Cond.Wait", "pkg/queue.(*queue).NotEmpty") >= n {
 			return true
 		}
 		if time.Now().After(deadline) {
@@ -575,6 +574,192 @@ func waitParkedInNotEmpty(n int, limit time.Duration) bool {
 		}
 		time.Sleep(50 * time.Microsecond)
 	}
+}
+
+// countParked counts the goroutines whose wait state (header of their stack dump) contains state and whose
+// stack contains frame.
+func countParked(state, frame string) int {
+	buf := make([]byte, 1<<20)
+	k := runtime.Stack(buf, true)
+	cnt := 0
+	for _, g := range strings.Split(string(buf[:k]), "\n\n") {
+		nl := strings.IndexByte(g, '\n')
+		if nl < 0 {
+			continue
+		}
+		if strings.Contains(g[:nl], state) && strings.Contains(g, frame) {
+			cnt++
+		}
+	}
+	return cnt
+}
+
+// ---------------------------------------------------------------------------------------------------------
+// directed interleaving: a group is being created while another group acknowledges and Sync + GC run
+// ---------------------------------------------------------------------------------------------------------
+
+// pageWriteHook is called before every store into a queue page of this process (page factory seam).
+var pageWriteHook atomic.Value // func(path string)
+
+func installPageWriteHook() {
+	pageWriteHook.Store(func(string) {})
+	seam.InstallQueuePages(seam.Direct{}, &seam.Observer{PageWrite: func(path, kind string, offset, length int) {
+		pageWriteHook.Load().(func(string))(path)
+	}})
+}
+
+// expectedLoad: the positions of a group (new, or loaded from its meta page) created at queue ack q.
+func (h *hist) expectedLoad(g *mGroup, known bool, q int64) (c, a int64) {
+	if !known {
+		return q, q
+	}
+	a = g.ack
+	if q > a {
+		a = q
+	}
+	c = g.consumed
+	if a > c {
+		c = a
+	}
+	if c > h.appended {
+		c = h.appended
+	}
+	if a > h.appended {
+		a = h.appended
+	}
+	return c, a
+}
+
+// syncResult: the queue ack after a Sync over the model's existing groups plus (optionally) one more ack.
+func (h *hist) syncResult(extra *int64) int64 {
+	gs := h.existing()
+	if len(gs) == 0 && extra == nil {
+		return h.qack
+	}
+	cand := h.appended
+	for _, g := range gs {
+		if g.ack < cand {
+			cand = g.ack
+		}
+	}
+	if extra != nil && *extra < cand {
+		cand = *extra
+	}
+	if cand >= 0 && cand > h.qack {
+		return cand
+	}
+	return h.qack
+}
+
+// opCreateWhileSync: GetOrCreateConsumerGroup(name) for a group that is not in the map; at its first meta page
+// store (NewConsumerGroup has just chosen the start positions from the queue ack) another goroutine lets group o
+// acknowledge everything it consumed and runs Sync + GC. The creating goroutine goes on when that goroutine is done
+// or is parked on the fan-out queue's map lock below Sync (goroutine state, not elapsed time). Creation and Sync
+// must be atomic to each other: the outcome is "create, then ack+sync+gc" or "ack+sync+gc, then create".
+func (h *hist) opCreateWhileSync(name string, o *mGroup) {
+	v := o.consumed
+	h.begin("create-while-sync", fmt.Sprintf("get-or-create-group %s; at its first meta page store: ack %s %d + sync + gc from another goroutine", name, o.name, v))
+	g, known := h.groups[name]
+	if known && (g.exists || !g.onDisk) {
+		known = false
+		if g.exists {
+			return
+		}
+	}
+	target := string(filepath.Separator) + filepath.Join("cg", name) + string(filepath.Separator)
+	done := make(chan struct{})
+	var once sync.Once
+	fired, blocked := false, false
+	oh, fq := o.h, h.fq
+	pageWriteHook.Store(func(path string) {
+		if !strings.Contains(path, target) {
+			return
+		}
+		once.Do(func() {
+			fired = true
+			go func() {
+				defer close(done)
+				defer func() { _ = recover() }()
+				oh.Ack(v)
+				fq.Sync()
+				fq.Queue().GC()
+			}()
+			deadline := time.Now().Add(10 * time.Second)
+			for time.Now().Before(deadline) {
+				select {
+				case <-done:
+					return
+				default:
+				}
+				if countParked("sync.RWMutex.RLock", "pkg/queue.(*fanOutQueue).Sync") > 0 {
+					blocked = true
+					return
+				}
+				time.Sleep(50 * time.Microsecond)
+			}
+		})
+	})
+	handle, err := h.fq.GetOrCreateConsumerGroup(name)
+	pageWriteHook.Store(func(string) {})
+	if err != nil {
+		h.fail("C06/create-group/failed", "GetOrCreateConsumerGroup(%s): %v", name, err)
+		return
+	}
+	if !fired {
+		h.res.inconclusive("history %d: creating group %s did not store into its meta page", h.idx, name)
+		h.failed = true
+		return
+	}
+	select {
+	case <-done:
+	case <-time.After(60 * time.Second):
+		h.res.inconclusive("history %d: ack+sync+gc overlapping a group creation did not finish", h.idx)
+		h.failed = true
+		return
+	}
+	if blocked {
+		h.res.count("create_while_sync.sync_waited_for_creation", 1)
+	} else {
+		h.res.count("create_while_sync.sync_finished_inside_creation", 1)
+	}
+	// the two serial outcomes
+	q0 := h.qack
+	c1, a1 := h.expectedLoad(g, known, q0)
+	o.ack = v
+	q1 := h.syncResult(&a1)
+	q2 := h.syncResult(nil)
+	c2, a2 := h.expectedLoad(g, known, q2)
+	if !known {
+		if g == nil {
+			g = &mGroup{name: name}
+			h.groups[name] = g
+		}
+	}
+	wasStopped := g.stopped
+	g.h, g.exists, g.stopped, g.onDisk, g.paused = handle, true, false, true, false
+	g.overtaken, g.below = false, false
+	if g.suspended != "" || g.resetWhileStopped {
+		g.suspended, g.resetWhileStopped = "reload", false // re-armed as soon as the order holds
+	}
+	rc, ra, rq := handle.ConsumedSeq(), handle.AcknowledgedSeq(), h.fq.Queue().AcknowledgedSeq()
+	switch {
+	case rq == q1 && rc == c1 && ra == a1:
+		h.res.count("create_while_sync.outcome_create_then_sync", 1)
+	case rq == q2 && rc == c2 && ra == a2:
+		h.res.count("create_while_sync.outcome_sync_then_create", 1)
+	case ra < rq:
+		h.violate("C06/create-group/overlapping-sync-left-group-below-queue-ack",
+			"group %s (stopped before: %v) was created while group %s acknowledged %d and Sync+GC ran: it exists with consumed=%d ack=%d, the queue ack is %d (serial outcomes: queue ack %d with %d/%d, or queue ack %d with %d/%d)",
+			name, wasStopped, o.name, v, rc, ra, rq, q1, c1, a1, q2, c2, a2)
+	default:
+		h.violate("C06/create-group/overlapping-sync-not-serializable",
+			"group %s created while group %s acknowledged %d and Sync+GC ran: consumed=%d ack=%d queue ack %d (serial outcomes: queue ack %d with %d/%d, or queue ack %d with %d/%d)",
+			name, o.name, v, rc, ra, rq, q1, c1, a1, q2, c2, a2)
+	}
+	g.consumed, g.ack = rc, ra
+	h.setModelQack(rq)
+	h.res.count("op.create-while-sync", 1)
+	h.after(true)
 }
 
 func (h *hist) opAck(g *mGroup, s int64, flavour string) {
@@ -1137,6 +1322,9 @@ func (h *hist) randomOp() {
 		}
 	})
 	add(3, func() { h.opCreate(groupPool[r.Intn(len(groupPool))]) })
+	if o, name := h.pickCreateWhileSync(); o != nil {
+		add(2, func() { h.opCreateWhileSync(name, o) })
+	}
 	if len(h.existing()) > 0 {
 		add(2, func() {
 			gs := h.existing()
@@ -1172,6 +1360,39 @@ func (h *hist) randomOp() {
 		}
 		x -= c.w
 	}
+}
+
+// pickCreateWhileSync: a group whose pending ack would let Sync move the queue ack, and a name that is not in the map.
+func (h *hist) pickCreateWhileSync() (*mGroup, string) {
+	if h.kind != "seq" && h.kind != "directed" {
+		return nil, ""
+	}
+	var o *mGroup
+	for _, g := range h.existing() {
+		if g.suspended != "" || g.consumed <= g.ack || g.consumed > h.appended {
+			continue
+		}
+		old := g.ack
+		g.ack = g.consumed
+		moves := h.syncResult(nil) > h.qack
+		g.ack = old
+		if moves {
+			o = g
+			break
+		}
+	}
+	if o == nil {
+		return nil, ""
+	}
+	off := h.rnd.Intn(len(groupPool))
+	for i := range groupPool {
+		name := groupPool[(off+i)%len(groupPool)]
+		g, known := h.groups[name]
+		if !known || (!g.exists && (!g.onDisk || (g.suspended == "" && !g.resetWhileStopped))) {
+			return o, name
+		}
+	}
+	return nil, ""
 }
 
 func (h *hist) genRandom(n int) {
@@ -1210,7 +1431,7 @@ func (h *hist) genDirected() {
 	}
 	k := 4 + r.Intn(12)
 	h.puts(k)
-	switch h.idx % 6 {
+	switch h.idx % 8 {
 	case 4, 5:
 		// the consumer of group 1 is parked in Consume on the drained queue while another goroutine moves the
 		// group: SetConsumedSeq back into [ack, consumed) (4) or a forward SetAppendedSeq (5); then an append
@@ -1223,7 +1444,7 @@ func (h *hist) genDirected() {
 		if h.failed {
 			return
 		}
-		if h.idx%6 == 4 {
+		if h.idx%8 == 4 {
 			h.opConsumeWait(g1, "set-consumed")
 		} else {
 			h.opConsumeWait(g1, "set-appended")
@@ -1235,6 +1456,38 @@ func (h *hist) genDirected() {
 		h.drain(g1, h.appended, true)
 		if !h.failed {
 			h.opSync()
+		}
+		if !h.failed {
+			h.opReopen()
+		}
+	case 6, 7:
+		// a group that is not in the map - new (6), or stopped before (7) - is created while the other group
+		// acknowledges what it consumed and Sync + GC run; then the created group consumes (everything read back)
+		name := "4"
+		if h.idx%8 == 7 {
+			name = "2"
+			h.drain(g2, int64(r.Intn(k)), true)
+			h.opSync()
+			h.opStop("2")
+		} else {
+			h.drain(g2, h.appended, true)
+		}
+		h.drain(g1, int64(r.Intn(k)), true)
+		h.opSync()
+		h.puts(1 + r.Intn(4))
+		h.drain(g1, h.appended, false)
+		if h.failed {
+			return
+		}
+		if o, _ := h.pickCreateWhileSync(); o != nil {
+			h.opCreateWhileSync(name, o)
+		}
+		if ng := h.groups[name]; !h.failed && ng != nil && ng.exists {
+			h.drain(ng, h.appended, true)
+		}
+		if !h.failed {
+			h.opSync()
+			h.opGC()
 		}
 		if !h.failed {
 			h.opReopen()
@@ -1254,7 +1507,7 @@ func (h *hist) genDirected() {
 		if r.Intn(2) == 0 {
 			h.opGC()
 		}
-		if h.idx%6 == 0 {
+		if h.idx%8 == 0 {
 			h.opReopen()
 		} else {
 			h.opCreate("2")
